@@ -295,6 +295,8 @@ pub enum FeeMode {
     Minus1,
     WrongDenom,
     ExplicitValue, // Some(fee) even when the fee due is 0
+    /// the fee coin names another denomination the contract trades as quote
+    OtherQuote,
 }
 
 #[derive(Clone, Copy, Debug, PartialEq, Eq)]
@@ -409,6 +411,10 @@ impl BidDraft {
             }
             FeeMode::WrongDenom => Some(("zzz".into(), due.max(1))),
             FeeMode::ExplicitValue => Some((self.quote.clone(), due)),
+            FeeMode::OtherQuote => match cfg.quotes.iter().find(|q| **q != self.quote) {
+                Some(q) => Some((q.clone(), due.max(1))),
+                None => Some(("zzz".into(), due.max(1))),
+            },
         };
         let need = qs + fee.as_ref().map_or(0, |f| f.1);
         let f = funds_of(cfg, self.funds, need, &self.quote);
@@ -526,7 +532,7 @@ fn bid_devs(cfg: &Cfg, d: &BidDraft, inc: u128) -> Vec<(u8, BidDev)> {
     for q in [QsMode::Plus1, QsMode::Minus1] {
         v.push((7, Box::new(move |x: &mut BidDraft| x.qs = q)));
     }
-    for f in [FeeMode::Absent, FeeMode::Plus1, FeeMode::Minus1, FeeMode::WrongDenom, FeeMode::ExplicitValue] {
+    for f in [FeeMode::Absent, FeeMode::Plus1, FeeMode::Minus1, FeeMode::WrongDenom, FeeMode::ExplicitValue, FeeMode::OtherQuote] {
         v.push((8, Box::new(move |x: &mut BidDraft| x.fee = f)));
     }
     v
@@ -619,12 +625,13 @@ pub fn fee_creates(cfg: &Cfg, m: &Menu) -> Vec<Act> {
     for slot in 0..m.bid_slots {
         for p in &m.prices {
             for s in &m.sizes {
-                for fee in [FeeMode::Exact, FeeMode::Absent, FeeMode::Plus1, FeeMode::Minus1, FeeMode::WrongDenom, FeeMode::ExplicitValue] {
+                for fee in [FeeMode::Exact, FeeMode::Absent, FeeMode::Plus1, FeeMode::Minus1, FeeMode::WrongDenom, FeeMode::ExplicitValue, FeeMode::OtherQuote] {
+                  for quote in if m.quotes.is_empty() { vec![cfg.quotes[0].clone()] } else { m.quotes.iter().map(|q| q.to_string()).collect::<Vec<_>>() } {
                     let d = BidDraft {
                         sender: r.get(if slot % 2 == 0 { "buyer1" } else { "buyer2" }).to_string(),
                         id: BID_IDS[slot].into(),
                         base: cfg.base.clone(),
-                        quote: cfg.quotes[0].clone(),
+                        quote: quote.clone(),
                         price: p.to_string(),
                         size: *s,
                         qs: QsMode::Exact,
@@ -632,6 +639,7 @@ pub fn fee_creates(cfg: &Cfg, m: &Menu) -> Vec<Act> {
                         funds: FundsMode::Exact,
                     };
                     v.push(d.build(cfg));
+                  }
                 }
             }
         }
